@@ -107,6 +107,44 @@ pub fn c17(ctx: &mut Ctx) {
                 format!("{:?}", ks), format!("{}", ks), format!("{:?}", kg), format!("{}", kg), format!("{:?}", resp), format!("{:?}", reqv),
                 format!("{:#?}", resp), format!("{:#?}", kg),
             ];
+            // the model's renderings (Model/Observe.lean) against the crate's, for this key material
+            {
+                let chain = rs::key_chain(secret.as_bytes(), "20150830", "us-east-1", "service");
+                let views: [(&str, Vec<u8>, String, String, String); 5] = [
+                    ("secret", secret.as_bytes().to_vec(), format!("{:?}", k), format!("{}", k), format!("{:#?}|{:#}", k, k)),
+                    ("date", chain[0].clone(), format!("{:?}", kd), format!("{}", kd), format!("{:#?}|{:#}", kd, kd)),
+                    ("region", chain[1].clone(), format!("{:?}", kr), format!("{}", kr), format!("{:#?}|{:#}", kr, kr)),
+                    ("service", chain[2].clone(), format!("{:?}", ks), format!("{}", ks), format!("{:#?}|{:#}", ks, ks)),
+                    ("signing", chain[3].clone(), format!("{:?}", kg), format!("{}", kg), format!("{:#?}|{:#}", kg, kg)),
+                ];
+                for (kind, bytes, dbg, disp, alt) in views {
+                    let line = format!("RENDER {} {}", kind, hx(&bytes));
+                    let model = ctx.drv.ask(&line);
+                    let im = format!("{}|{}", dbg, disp);
+                    if alt != model {
+                        ctx.rep.fail(Failure { kind: "CORR", op: "RENDER".into(), class: "c17-render".into(), input: format!("{} (alternate flag)", line), imp: alt.chars().take(200).collect(), model: model.clone(), spec: String::new(), clause: "implementation and model disagree on the alternate-flag Debug/Display rendering of a key type".into() });
+                    }
+                    ctx.rep.count("evaluations");
+                    ctx.rep.count("evaluations.RENDER_MODEL");
+                    ctx.rep.count("traces_validated_against_impl");
+                    if model != im {
+                        ctx.rep.fail(Failure { kind: "CORR", op: "RENDER".into(), class: "c17-render".into(), input: line, imp: im.chars().take(200).collect(), model, spec: String::new(), clause: "implementation and model disagree on the Debug/Display rendering of a key type".into() });
+                    }
+                }
+            }
+            {
+                // Debug of the provider response: its key field is the only place a key could show
+                let chain = rs::key_chain(secret.as_bytes(), "20150830", "us-east-1", "service");
+                let line = format!("RENDERRESP {} {} {}", hx(format!("{:?}", resp.principal()).as_bytes()), hx(format!("{:?}", resp.session_data()).as_bytes()), hx(&chain[3]));
+                let model = ctx.drv.ask(&line);
+                let im = format!("{:?}", resp);
+                ctx.rep.count("evaluations");
+                ctx.rep.count("evaluations.RENDER_MODEL");
+                ctx.rep.count("traces_validated_against_impl");
+                if model != im {
+                    ctx.rep.fail(Failure { kind: "CORR", op: "RENDERRESP".into(), class: "c17-render".into(), input: line, imp: im.chars().take(300).collect(), model: model.chars().take(300).collect(), spec: String::new(), clause: "implementation and model disagree on the Debug rendering of GetSigningKeyResponse".into() });
+                }
+            }
             let chain = rs::key_chain(secret.as_bytes(), "20150830", "us-east-1", "service");
             let mut material: Vec<Vec<u8>> = vec![secret.as_bytes().to_vec(), format!("AWS4{}", secret).into_bytes()];
             material.extend(chain.iter().cloned());
@@ -386,14 +424,36 @@ fn mode_pairs(ctx: &mut Ctx, n: usize) -> Vec<Case> {
     out
 }
 
+/// Accepted folded requests with several parameter names in URL and body: the rebuilt URI they return is
+/// part of the outcome and must not follow the hash seed.
+fn folded_cases(ctx: &mut Ctx, n: usize) -> Vec<Case> {
+    let mut rng = ctx.rng.fork();
+    let mut out = Vec::new();
+    for k in 0..n {
+        let mut l = simple_logical(if k % 2 == 0 { Carrier::Header } else { Carrier::Query }, 1_440_938_160_000_000_000);
+        l.method = "POST".into();
+        l.fold = true;
+        l.content_type = Some("application/x-www-form-urlencoded".into());
+        l.signed.push("content-type".into());
+        let names = ["Action", "Version", "a", "b", "c", "Zeta", "k 1", "m", "n", "o"];
+        l.query = (0..1 + rng.below(4)).map(|_| (rng.pick(&names).as_bytes().to_vec(), format!("u{}", rng.below(9)).into_bytes())).collect();
+        l.form = Some((0..2 + rng.below(5)).map(|_| (rng.pick(&names).as_bytes().to_vec(), format!("f{}", rng.below(9)).into_bytes())).collect());
+        let now = now_for(&l, 0);
+        let sp = if k % 3 == 0 { Spelling::random(&mut rng) } else { Spelling::plain() };
+        out.push(sign_and_spell(&l, &mut rng, &sp, now).case);
+    }
+    out
+}
+
 pub fn c18(ctx: &mut Ctx) {
     let n = ctx.n(150, 1500);
     let mut cases = mode_pairs(ctx, ctx.n(20, 200));
+    cases.extend(folded_cases(ctx, ctx.n(30, 300)));
     let npairs = cases.len();
     cases.extend(corpus(ctx, n));
     // model agreement and the single reference answer
     let jobs: Vec<Job> = cases.iter().enumerate().map(|(i, c)| if i < npairs {
-        job(c.clone(), Expect::Accept, "c18-mode-pair", "C18: a request validated in one mode after the same raw path was validated in the other mode was refused — the outcome depends on process history")
+        job(c.clone(), Expect::Accept, "c18-mode-pair", "C18: a reference-signed request (S3/standard twins of one raw path, S3 first; folded forms with several parameter names) was refused — the outcome depends on process history or hash order")
     } else { job(c.clone(), Expect::Any, "c18", "") }).collect();
     run_jobs(ctx, "VALIDATE", jobs);
     let reference: Vec<String> = cases.iter().map(outcome_line).collect();
